@@ -272,7 +272,8 @@ func instFallthroughMeta(interp *Interpreter, instr *InstrMeta) (ExitReason, Pro
 // opcode 10
 func instEcalliMeta(interp *Interpreter, instr *InstrMeta) (ExitReason, ProgramCounter) {
 	nuX := instr.Imm[0]
-	return ExitHostCall | ExitReason(nuX), instr.PC
+	// keep the reason type intact: a sign-extended immediate has its top bits set
+	return ExitHostCall | ExitReason(uint32(nuX)), instr.PC
 }
 
 // opcode 20
